@@ -1,0 +1,21 @@
+//go:build verif
+
+package ring
+
+// Verification hooks for property C12 (build tag `verif`): add-only, no behaviour.
+
+// VerifSubringIDs returns the ids (map keys of the descriptor) of the members of a ring or of a
+// sub-ring returned by ShuffleShard / ShuffleShardWithLookback.
+func VerifSubringIDs(rr ReadRing) []string {
+	r, ok := rr.(*Ring)
+	if !ok {
+		return nil
+	}
+	r.mtx.RLock()
+	defer r.mtx.RUnlock()
+	ids := make([]string, 0, len(r.ringDesc.Ingesters))
+	for id := range r.ringDesc.Ingesters {
+		ids = append(ids, id)
+	}
+	return ids
+}
